@@ -327,6 +327,9 @@ def run_registration(ctx):
                                                                            "redirect_uris": ["https://c.example/x"], "token_endpoint_auth_method": "client_secret_basic",
                                                                            "client_uri": "https://c.example/x"}.get(k, payload[k])])
                 body["software_statement"] = _jwt.encode({"alg": "HS256"}, statement, STATEMENT_KEY).decode()
+            from impl import transports as T
+            srv.transport = T.pick("register", body, tok)      # framework-free, or the repository's Flask / Django glue
+            ctx.count("transport:" + srv.transport)
             try:
                 resp = srv.create_endpoint_response("client_registration", S.HReq("POST", "https://as.example/register", None, hdr, json.dumps(body)))
                 got = outcome(resp, store)
@@ -352,6 +355,9 @@ def run_registration(ctx):
             if rng.random() < 0.12:
                 payload[rng.choice(["registration_access_token", "registration_client_uri", "client_secret_expires_at", "client_id_issued_at"])] = rng.choice(["x", 0, None])
             hdr = {"Authorization": ("Bearer reg-token-" + (target if perm else "someone-else")) if tok else "Bearer nope"}
+            from impl import transports as T
+            srv.transport = T.pick("update", payload, tok, target, perm)
+            ctx.count("transport:" + srv.transport)
             try:
                 resp = srv.create_endpoint_response("client_configuration", S.HReq("PUT", "https://as.example/register/" + target, None, hdr, json.dumps(payload)))
                 got = outcome(resp, store)
@@ -360,6 +366,7 @@ def run_registration(ctx):
             mod = m.call("update", {"token_valid": tok, "client_exists": target == "cid1", "permitted": perm, "client_id": "cid1",
                                     "client_secret": "sec1", "server": server_md, "jwks_ok": jok, "payload": payload})
             case = {"mode": mode, "token": tok, "target": target, "permitted": perm, "server": server_md, "payload": payload}
+        case["transport"] = srv.transport
         ctx.case(case, (mode, json.dumps(server_md, sort_keys=True)[:30], json.dumps(payload, sort_keys=True), str(got[:1] + got[1:3] if got[0] != "stored" else "stored")),
                  "%s:%s" % (mode, got[0] if got[0] != "refused" else got[2]))
         ctx.compare(mode, case, got, mod)
